@@ -134,7 +134,7 @@ Theorem nsec3_t_erasure H apex c m z o : generate_nsec3s_t H apex c m z = Ok o -
 Proof.
   unfold generate_nsec3s_t. intros E.
   apply bind_ok in E as ([[acc ents] st] & Hloop & E).
-  destruct st as [[ttl pttl]|]; [|discriminate].
+  destruct st as [[ttl [pttl cls]]|]; [|discriminate].
   apply bind_ok in E as (er & Her & E). apply bind_ok in E as (out & Hout & E). injection E as <-.
   apply n3_loop_t_erase in Hloop. rewrite tgroups_erase, tskip_erase in Hloop.
   destruct (ent_recs_t_erase H c ttl ents er Her) as [Her' _].
@@ -145,16 +145,16 @@ Proof.
              | e :: es' => do p <- mk_pre H c e []; do ps <- go es'; Ok (p :: ps)
              end) ents) with (ent_recs H c ents).
   rewrite Her'. cbn [bind].
-  change (finish3 (rev (map fst acc) ++ map fst er) = Ok (map fst (o_recs (mk_n3out (map (fun x => (fst x, snd (snd x))) out) nsec3_class pttl)))).
+  change (finish3 (rev (map fst acc) ++ map fst er) = Ok (map fst (o_recs (mk_n3out (map (fun x => (fst x, snd (snd x))) out) (if nsec3_class_fixed then nsec3_class else cls) pttl)))).
   rewrite <- map_rev, <- map_app, <- (gfinish_erase (n3pre * N) fst), Hout. cbn [omap o_recs].
   rewrite map_map. reflexivity.
 Qed.
 
 (* ---- TTLs come from SOA records of the zone *)
-Definition from_soa3 (m : pmode) (z : list trec) (st : option (N * N)) : Prop :=
+Definition from_soa3 (m : pmode) (z : list trec) (st : option (N * (N * N))) : Prop :=
   match st with
-  | Some (ttl, pttl) => exists s, In s z /\ t_type s = 6 /\ ttl = N.min (t_min s) (t_ttl s) /\
-      pttl = match m with PFixed t => t | PSoa => t_ttl s | PSoaMin => t_min s end
+  | Some (ttl, (pttl, cls)) => exists s, In s z /\ t_type s = 6 /\ ttl = N.min (t_min s) (t_ttl s) /\
+      pttl = match m with PFixed t => t | PSoa => t_ttl s | PSoaMin => t_min s end /\ cls = t_class s
   | None => True
   end.
 
@@ -170,15 +170,15 @@ Proof.
     destruct (N.eqb_spec (t_type f) rt_SOA) as [Es|Es].
     + destruct (soa_max_len <? length (f :: run))%nat; [discriminate|].
       eapply IH; [exact Hin'| |exact E]. unfold n3_upd, soa_ttl. cbv [ttl_is_min]. cbn [from_soa3].
-      exists f. split; [apply (Hin (f :: run) f); left; reflexivity|]. split; [exact Es|split; reflexivity].
+      exists f. split; [apply (Hin (f :: run) f); left; reflexivity|]. split; [exact Es|repeat split].
     + eapply IH; eassumption.
 Qed.
 
 Definition ttl_from_soa (z : list trec) (ttl : N) : Prop :=
   exists s, In s z /\ t_type s = 6 /\ ttl = N.min (t_min s) (t_ttl s).
 
-Lemma from_soa3_ttl m z ttl pttl : from_soa3 m z (Some (ttl, pttl)) -> ttl_from_soa z ttl.
-Proof. intros (s & A & B & C & _). exists s. repeat split; assumption. Qed.
+Lemma from_soa3_ttl m z ttl pc : from_soa3 m z (Some (ttl, pc)) -> ttl_from_soa z ttl.
+Proof. destruct pc as [pttl cls]. intros (s & A & B & C & _). exists s. repeat split; assumption. Qed.
 
 Lemma n3_loop_t_from_soa H apex c m excl z : forall gs cut stack ents st acc acc' ents' st',
   (forall g r, In g gs -> In r (snd g) -> In r z) ->
@@ -206,16 +206,16 @@ Proof.
 Qed.
 
 Theorem nsec3_t_ttl_class H apex c m z o : generate_nsec3s_t H apex c m z = Ok o ->
-  o_class o = 1 /\
   (forall x, In x (o_recs o) -> exists s, In s z /\ t_type s = 6 /\ snd x = N.min (t_min s) (t_ttl s)) /\
   (exists s, In s z /\ t_type s = 6 /\
-     o_param_ttl o = match m with PFixed t => t | PSoa => t_ttl s | PSoaMin => t_min s end).
+     o_param_ttl o = match m with PFixed t => t | PSoa => t_ttl s | PSoaMin => t_min s end /\
+     o_class o = if nsec3_class_fixed then 1 else t_class s).
 Proof.
   unfold generate_nsec3s_t. intros E.
   apply bind_ok in E as ([[acc ents] st] & Hloop & E).
-  destruct st as [[ttl pttl]|] eqn:Est; [|discriminate].
+  destruct st as [[ttl [pttl cls]]|] eqn:Est; [|discriminate].
   apply bind_ok in E as (er & Her & E). apply bind_ok in E as (out & Hout & E). injection E as <-.
-  cbn [o_class o_recs o_param_ttl]. split; [reflexivity|].
+  cbn [o_class o_recs o_param_ttl].
   assert (HIN : forall g r, In g (tgroups (tskip_before apex z)) -> In r (snd g) -> In r z).
   { intros g r Hg Hr. apply (tskip_in apex). eapply tgroups_in; eassumption. }
   destruct (n3_loop_t_from_soa H apex c m _ z _ None [] [] None [] _ _ _ HIN I (Forall_nil _) Hloop) as [Hst Hacc].
@@ -226,13 +226,14 @@ Proof.
     + apply in_rev in Hin. rewrite Forall_forall in Hacc. apply (Hacc (p, t) Hin).
     + destruct (ent_recs_t_erase H c ttl ents er Her) as [_ Ht]. rewrite Forall_forall in Ht.
       pose proof (Ht (p, t) Hin) as Et. cbn [snd] in Et. subst t. eapply from_soa3_ttl. exact Hst.
-  - destruct Hst as (s & A & B & _ & D). exists s. repeat split; assumption.
+  - destruct Hst as (s & A & B & _ & D & F). exists s. split; [exact A|]. split; [exact B|]. split; [exact D|].
+    cbv [nsec3_class_fixed]; first [reflexivity | exact F].
 Qed.
 
 Example nsec3_t_example :
   match generate_nsec3s_t (fun x => x) [[101; 120]] (mk_n3cfg false 1 0 0 [] true) PSoaMin
           [ mk_trec [[101; 120]] 6 1 3600 300; mk_trec [[97]; [101; 120]] 1 1 5 0 ] with
-  | Ok o => o_class o = 1 /\ o_param_ttl o = 300 /\ map snd (o_recs o) = [300; 300]
+  | Ok o => o_param_ttl o = 300 /\ map snd (o_recs o) = [300; 300]
   | _ => False
   end.
 Proof. vm_compute. auto. Qed.
@@ -275,7 +276,7 @@ Proof.
   destruct (is_some st1) eqn:Es; [|discriminate]. injection E as _ <-. exact Es.
 Qed.
 
-Definition e3 (r : list (n3pre * N) * list name * option (N * N)) : list n3pre * list name * bool :=
+Definition e3 (r : list (n3pre * N) * list name * option (N * (N * N))) : list n3pre * list name * bool :=
   (map fst (fst (fst r)), snd (fst r), is_some (snd r)).
 
 Lemma n3_loop_t_sim H apex c m excl : forall gs cut stack ents st acc,
@@ -324,7 +325,7 @@ Proof.
     rewrite tgroups_erase, tskip_erase in L. cbn [map is_some] in L. rewrite <- L.
     destruct (n3_loop_t H apex c m (opt_out_flag c && c_excl c) (tgroups (tskip_before apex z)) None [] [] None [])
       as [[[acc ents] st]| | |]; cbn [omap bind e3 fst snd]; try reflexivity.
-    destruct st as [[ttl pttl]|]; cbn [is_some negb]; [|reflexivity].
+    destruct st as [[ttl [pttl cls]]|]; cbn [is_some negb]; [|reflexivity].
     change ((fix go (es : list name) : outcome (list n3pre) :=
                match es with
                | [] => Ok []
@@ -334,7 +335,7 @@ Proof.
     destruct (ent_recs_t H c ttl ents) as [er| | |]; cbn [omap bind]; try reflexivity.
     change (omap (fun o => map fst (o_recs o))
               (do out <- gfinish (n3pre * N) fst (rev acc ++ er);
-               Ok (mk_n3out (map (fun x => (fst x, snd (snd x))) out) nsec3_class pttl)) =
+               Ok (mk_n3out (map (fun x => (fst x, snd (snd x))) out) (if nsec3_class_fixed then nsec3_class else cls) pttl)) =
             finish3 (rev (map fst acc) ++ map fst er)).
     rewrite <- map_rev, <- map_app, <- (gfinish_erase (n3pre * N) fst).
     destruct (gfinish (n3pre * N) fst (rev acc ++ er)); cbn [omap bind o_recs]; try reflexivity.
@@ -345,10 +346,11 @@ Qed.
 Theorem nsec3param_record_spec H apex c m z o : generate_nsec3s_t H apex c m z = Ok o ->
   exists s, In s z /\ t_type s = 6 /\
     nsec3param_record apex c o =
-      (apex, 1, match m with PFixed t => t | PSoa => t_ttl s | PSoaMin => t_min s end,
+      (apex, (if nsec3_class_fixed then 1 else t_class s),
+       match m with PFixed t => t | PSoa => t_ttl s | PSoaMin => t_min s end,
        (c_alg c, c_flags c, c_iters c, c_salt c)).
 Proof.
-  intros E. destruct (nsec3_t_ttl_class H apex c m z o E) as (Hc & _ & s & Hs & Ht & Hp).
+  intros E. destruct (nsec3_t_ttl_class H apex c m z o E) as (_ & s & Hs & Ht & Hp & Hc).
   exists s. split; [exact Hs|]. split; [exact Ht|]. unfold nsec3param_record, n3_params. rewrite Hc, Hp. reflexivity.
 Qed.
 
